@@ -118,6 +118,15 @@ pub fn content_src(name: &str) -> String {
 }
 
 pub fn block_of(name: &str) -> BlockBuilder {
+    if name == "b8" {
+        // a block-level scope naming public keys can only be given through the builder API
+        return BlockBuilder::new()
+            .code(r#"got($x) <- tp($x); check if tp($x) or s("file1");"#)
+            .unwrap()
+            .scope(biscuit_auth::builder::Scope::PublicKey(k2().public()))
+            .scope(biscuit_auth::builder::Scope::Authority)
+            .scope(biscuit_auth::builder::Scope::PublicKey(k1().public()));
+    }
     BlockBuilder::new()
         .code(content_src(name))
         .unwrap_or_else(|e| panic!("content {name}: {e:?}"))
